@@ -9,14 +9,17 @@ ASSUMPTIONS = [
     "the public invalidateSubtree(.., BLOCK_FAILED_POP)",
     "calls outside the documented preconditions (VBK_ASSERT in the library) are Abort in the model and are not issued to "
     "the implementation (harness answers SKIP): FAILED_POP on a block at BLOCK_CAN_BE_APPLIED, acceptBlock connecting a "
-    "block that carries FAILED_POP, acceptBlockHeader below a block that was re-added while carrying FAILED_POP",
+    "block that carries FAILED_POP",
+    "restoration oracle (inv + reval returns every flag and the tip set) is claimed only for base states without a stale "
+    "FAILED_CHILD (removeSubtree drops FAILED_POP of removed blocks but keeps FAILED_CHILD of their descendants; the next "
+    "revalidation passing over such a flag clears it)",
     "PoW tree: the iteration order of the unordered tips_ set in doUpdateTips is taken from the implementation "
     "(getTips() after the call) and handed to the model; theorems hold for every order",
 ]
 META = {
     "text": "Coq theorems (all tree shapes, blocks, both reasons, all interleavings, both tree kinds) on the executable model "
             "coq/Tree/TreeDefs.v: invalidateSubtree and revalidateSubtree, every early exit included, preserve the flag invariant "
-            "(proper tree, FAILED_CHILD <=> failed parent, so every descendant of an invalid block is failed and descendants invalid "
+            "(proper tree, failed parent => FAILED_CHILD, so every descendant of an invalid block is failed and descendants invalid "
             "for another reason stay invalid); pointwise exactness of the traversal (only FAILED_CHILD of visited blocks changes); "
             "lifted over arbitrary op lists of inv/reval/rm/setState. _partial / not proved: inv_reval_id (restoration of flags and "
             "tips), the tip-set and active-chain conjuncts, best_chain_never_invalid - these are decided on the implementation by "
